@@ -20,15 +20,17 @@
 //! * **oracle-vs-spec**: the oracle's expected member sets equal the specification's
 //!   (`FC.matches` on the model state, the sets the theorems speak about).
 //!
-//! Failure classes (recognisers run on the minimised witness and on the implementation only):
-//! * `D1:isolated-not` — a group of the discrepancy has a filter with a NOT that is not guarded
-//!   by a positive AND sibling, and the same history with every such NOT guarded by
-//!   `And[pres class, …]` (same meaning) has no discrepancy;
+//! Failure classes (recognisers run on the minimised witness and on the implementation only; every
+//! discrepancy that appears with the failing operation must be explained, classes are reported
+//! separately when they differ):
+//! * `D1:isolated-not` — the group's filter has a NOT that is not guarded by a positive AND
+//!   sibling, and the discrepancy is absent from the same history with every such NOT guarded by
+//!   `And[pres class, …]` (same meaning);
 //! * `C18-F1:dyngroup-entry-not-candidate` — the entry in excess / missing is itself a dynamic
 //!   group (the hooks partition dyngroups out of the candidate set);
 //! * `C18-F2:revive-skips-unchanged-match` — the missing entry was revived by the operation that
-//!   made the discrepancy appear (pre and post both match, so `post_modify` adds nothing, and
-//!   the group is not in the entry's recycled_directmemberof);
+//!   made the discrepancy appear (D34, repaired in the source by the `mask_recycled_ts` guards of
+//!   the incremental tests: no longer a known finding, so a VIOLATION if it comes back);
 //! * anything else `unclassified`.
 //!
 //! A case runs on its own thread under a watchdog; `--replay` re-runs the stored history.
@@ -1040,7 +1042,13 @@ fn oracle_events(o: &Outcome) -> Vec<&Event> {
     o.events.iter().filter(|e| e.kind == "impl-vs-oracle").collect()
 }
 
-/// class of the first oracle failure of a (minimised) history
+/// Classes of the first oracle failure of a (minimised) history, joined by `+` when the
+/// discrepancies that appear with that operation have different explanations. Every discrepancy
+/// must be explained, otherwise the whole failure is `unclassified`:
+/// * D1 — the group's filter has an isolated NOT and the discrepancy is absent from the same
+///   history with every isolated NOT guarded by `And[pres class, …]` (same meaning);
+/// * F1 — the entry in excess / missing is itself a dyngroup;
+/// * F2 — the missing entry was revived by this very operation.
 fn classify(driver_path: &str, ops: &[Op], out: &Outcome, watchdog: StdDuration) -> String {
     let first_at = match oracle_events(out).first() {
         Some(e) => e.at,
@@ -1050,23 +1058,29 @@ fn classify(driver_path: &str, ops: &[Op], out: &Outcome, watchdog: StdDuration)
     if fresh.iter().any(|(_, d, _)| d.kind == "matcher") {
         return "unclassified".into();
     }
-    // D1: some filter of the history has an isolated NOT, a group of the discrepancy has one, and the
-    // meaning-preserving guarded history is clean up to and including this operation
-    if fresh.iter().all(|(_, _, c)| c.isolated_not) {
+    // the discrepancies of the guarded history up to the same operation
+    let guarded_discs: Option<BTreeSet<Disc>> = if fresh.iter().any(|(_, _, c)| c.isolated_not) {
         let guarded: Vec<Op> = ops.iter().map(|o| o.map_filters(&|t| guard_nots(t, false))).collect();
-        if let Some(g) = exec_case(driver_path, &guarded[..=first_at.min(guarded.len() - 1)], true, watchdog) {
-            if g.fatal.is_none() && oracle_events(&g).is_empty() {
-                return D1.into();
-            }
+        match exec_case(driver_path, &guarded[..=first_at.min(guarded.len() - 1)], false, watchdog) {
+            Some(g) if g.fatal.is_none() => Some(g.fresh.iter().map(|(_, d, _)| d.clone()).collect()),
+            _ => None,
+        }
+    } else {
+        None
+    };
+    let mut classes: BTreeSet<&'static str> = BTreeSet::new();
+    for (_, d, c) in &fresh {
+        if c.isolated_not && guarded_discs.as_ref().map(|g| !g.contains(d)).unwrap_or(false) {
+            classes.insert(D1);
+        } else if c.entry_is_dyngroup {
+            classes.insert(F1);
+        } else if c.revived_now && d.kind == "missing" {
+            classes.insert(F2);
+        } else {
+            return "unclassified".into();
         }
     }
-    if fresh.iter().all(|(_, _, c)| c.entry_is_dyngroup) {
-        return F1.into();
-    }
-    if fresh.iter().all(|(_, d, c)| c.revived_now && d.kind == "missing") {
-        return F2.into();
-    }
-    "unclassified".into()
+    classes.into_iter().collect::<Vec<_>>().join("+")
 }
 
 // ---------------------------------------------------------------------------------------------
@@ -1242,7 +1256,14 @@ fn gen_history(rng: &mut Rng, flavor: Flavor, len: usize) -> Vec<Op> {
                         ops.push(Op::Mod(vec![i], NAME, Some(name_of(i, rng.below(2) as u8))));
                     }
                     2 => ops.push(Op::Mod(t, DESC, None)),
-                    _ => ops.push(Op::Mod(t, DESC, Some(rng.pick(&DESCS).to_string()))),
+                    _ => {
+                        // now and then a dyngroup is changed in the same request: full re-evaluation
+                        // of that group and incremental tests of the candidates in one hook call
+                        if rng.chance(1, 5) && !live_d.is_empty() {
+                            t.push(*rng.pick(&live_d));
+                        }
+                        ops.push(Op::Mod(t, DESC, Some(rng.pick(&DESCS).to_string())))
+                    }
                 }
             }
             10..=12 if !live_d.is_empty() => {
@@ -1526,7 +1547,7 @@ fn main() {
         let k = (i + (args.seed as usize) * n_sys) % sf.len();
         cases.push(Case { label: format!("systematic:{k}"), ops: systematic(&sf[k], &sf[(k + 1) % sf.len()]) });
     }
-    let n_random = args.cases(72, 1200);
+    let n_random = args.cases(72, 2400);
     for i in 0..n_random {
         let mut rng = Rng::for_case(args.seed, i);
         // while a failing input is being searched for (budget > 1) every flavour gets equal weight
@@ -1589,7 +1610,7 @@ fn main() {
                             rep.note(format!("{}: the recorded finding `{exp}` no longer reproduces (repaired?)", c.label));
                             rep.count("corpus-finding-not-reproduced");
                         }
-                        (Some(g), e) if g == e => rep.count("corpus-finding-reproduced"),
+                        (Some(g), e) if g.split('+').any(|p| p == e) => rep.count("corpus-finding-reproduced"),
                         (Some(g), e) => rep.note(format!("{}: recorded as `{e}`, now classified `{g}`", c.label)),
                     }
                 }
@@ -1667,7 +1688,15 @@ fn report_case(rep: &mut Report, args: &Args, label: &str, ops: &[Op], out: &Out
             let fin = exec_case(&args.driver, &min, true, watchdog).unwrap_or_default();
             let ev = oracle_events(&fin).first().map(|e| (*e).clone()).unwrap_or_else(|| (*first).clone());
             let class = if oracle_events(&fin).is_empty() { class0.clone() } else { classify(&args.driver, &min, &fin, watchdog) };
-            rep.fail(Failure { kind: "impl-vs-oracle".into(), class, input: history_json(&min), expected: ev.expected, observed: ev.observed });
+            for part in class.split('+') {
+                rep.fail(Failure {
+                    kind: "impl-vs-oracle".into(),
+                    class: part.to_string(),
+                    input: history_json(&min),
+                    expected: ev.expected.clone(),
+                    observed: ev.observed.clone(),
+                });
+            }
         }
         return Some(class0);
     }
